@@ -51,6 +51,9 @@ class EexecStringRoundTrip(Contract):
     variants = (0, 1, 2, 3)
     level = "PF"
 
+    def variants_for(self, tier):
+        return (0, 1, 2) if tier == "quick" else (0, 1, 2, 3)
+
     def args(self, S, variant):
         return dict(s=S.bytes("s", variant), R=S.int("R", 0, 65535))
 
